@@ -211,9 +211,11 @@ def unique(ragged_array: RaggedArray, axis: int=None, return_counts: bool=False)
             return ragged_array, np.empty_like(ragged_array, dtype=int)
         return ragged_array
     sorted_array = ragged_array.sort()
-    unique_mask = np.concatenate(
-        ([True], sorted_array.ravel()[:-1] != sorted_array.ravel()[1:], [True])
-    )
+    flat = sorted_array.ravel()
+    changed = flat[:-1] != flat[1:]
+    if np.issubdtype(flat.dtype, np.floating):
+        changed &= ~(np.isnan(flat[:-1]) & np.isnan(flat[1:]))  # NaNs are one value, as in np.unique
+    unique_mask = np.concatenate(([True], changed, [True]))
     unique_mask[ragged_array._shape.starts] = True
     if return_counts:
         counts = np.diff(np.flatnonzero(unique_mask))
